@@ -80,7 +80,7 @@ package fsm
 //@ func (*updateContext).EnsureIndexed
 //@   results err
 //@   requires c != nil && c.batch != nil && c.db != nil && c.batch.bdb == c.db
-//@   ensures [C01.idx.keep] err == nil ==> c.batch != nil && c.batch.isIndexed && c.batch.vP == old(c.batch.vP) && c.batch.vV == old(c.batch.vV) && c.batch.bdb == c.db
+//@   ensures [C01.idx.keep+C04] err == nil ==> c.batch != nil && c.batch.isIndexed && c.batch.vP == old(c.batch.vP) && c.batch.vV == old(c.batch.vV) && c.batch.bdb == c.db
 //@   ensures err != nil ==> c.batch == old(c.batch)
 //@   ensures c.batch == old(c.batch) || fresh(c.batch)
 //@   modifies c.batch
@@ -132,10 +132,10 @@ package fsm
 //@ func (*updateContext).Commit
 //@   results err
 //@   requires c != nil && c.batch != nil && c.db != nil && c.batch.bdb == c.db && c.batch != c.db
-//@   ensures [C01.commit.keys] err == nil ==> forall k Bytes :: c.db.vP[k] == (k == IDX() || (k == LIDX() && c.leaderIndex != nil) ? true : old(c.batch.vP[k]))
-//@   ensures [C01.commit.vals] err == nil ==> forall k Bytes :: c.db.vV[k] == (k == IDX() ? le64(c.index) : (k == LIDX() && c.leaderIndex != nil ? le64(*c.leaderIndex) : old(c.batch.vV[k])))
+//@   ensures [C01.commit.keys+C04] err == nil ==> forall k Bytes :: c.db.vP[k] == (k == IDX() || (k == LIDX() && c.leaderIndex != nil) ? true : old(c.batch.vP[k]))
+//@   ensures [C01.commit.vals+C04] err == nil ==> forall k Bytes :: c.db.vV[k] == (k == IDX() ? le64(c.index) : (k == LIDX() && c.leaderIndex != nil ? le64(*c.leaderIndex) : old(c.batch.vV[k])))
 //@   ensures [C04.commit.atomic] err != nil ==> c.db.vP == old(c.db.vP) && c.db.vV == old(c.db.vV)
-//@   ensures [C01.commit.once] c.db.ncommit == old(c.db.ncommit) + (err == nil ? 1 : 0)
+//@   ensures [C01.commit.once+C04] c.db.ncommit == old(c.db.ncommit) + (err == nil ? 1 : 0)
 //@   modifies c.batch.vP, c.batch.vV, c.db.vP, c.db.vV, c.db.ncommit
 
 // parseCommand (contract taken from the property): the context's index is the entry's own index; the
